@@ -441,6 +441,16 @@ impl<const K: u8> Probe<K> {
             if ch.outside {
                 with_case(|c| c.outside.borrow_mut().push((slot, addr.clone())));
             }
+            if let Some(second) = ch.also_under {
+                match (second, addr.clone()) {
+                    (ChildReg::Unit, AnyAddr::A0(a)) => ctx.add_child(a),
+                    (ChildReg::Unit, AnyAddr::A1(a)) => ctx.add_child(a),
+                    (ChildReg::Msg0, AnyAddr::A0(a)) => ctx.register_child::<ChildMsg<0>>(a),
+                    (ChildReg::Msg0, AnyAddr::A1(a)) => ctx.register_child::<ChildMsg<0>>(a),
+                    (ChildReg::Msg1, AnyAddr::A0(a)) => ctx.register_child::<ChildMsg<1>>(a),
+                    (ChildReg::Msg1, AnyAddr::A1(a)) => ctx.register_child::<ChildMsg<1>>(a),
+                }
+            }
             match (ch.under, addr) {
                 (ChildReg::Unit, AnyAddr::A0(a)) => ctx.add_child(a),
                 (ChildReg::Unit, AnyAddr::A1(a)) => ctx.add_child(a),
@@ -587,25 +597,33 @@ impl<const K: u8> Handler<Tick> for Probe<K> {
 
 impl<const K: u8> Handler<()> for Probe<K> {
     async fn handle(&mut self, ctx: &mut Context<Self>, _m: ()) {
-        self.run_handler(ctx, MsgRef::Unit, &[]).await;
+        let aux = Arc::clone(&self.beh);
+        let aux = aux.aux_work.clone();
+        self.run_handler(ctx, MsgRef::Unit, &aux).await;
     }
 }
 
 impl<const K: u8, const T: u8> Handler<Topic<T>> for Probe<K> {
     async fn handle(&mut self, ctx: &mut Context<Self>, m: Topic<T>) {
-        self.run_handler(ctx, MsgRef::Topic { topic: T, id: m.id }, &[]).await;
+        let aux = Arc::clone(&self.beh);
+        let aux = aux.aux_work.clone();
+        self.run_handler(ctx, MsgRef::Topic { topic: T, id: m.id }, &aux).await;
     }
 }
 
 impl<const K: u8, const T: u8> Handler<ChildMsg<T>> for Probe<K> {
     async fn handle(&mut self, ctx: &mut Context<Self>, m: ChildMsg<T>) {
-        self.run_handler(ctx, MsgRef::Child { reg: T, tag: m.tag }, &[]).await;
+        let aux = Arc::clone(&self.beh);
+        let aux = aux.aux_work.clone();
+        self.run_handler(ctx, MsgRef::Child { reg: T, tag: m.tag }, &aux).await;
     }
 }
 
 impl<const K: u8> StreamHandler<Item> for Probe<K> {
     async fn handle(&mut self, ctx: &mut Context<Self>, m: Item) {
-        self.run_handler(ctx, MsgRef::Item(m.0), &[]).await;
+        let aux = Arc::clone(&self.beh);
+        let aux = aux.aux_work.clone();
+        self.run_handler(ctx, MsgRef::Item(m.0), &aux).await;
     }
 
     async fn finished(&mut self, ctx: &mut Context<Self>) {
